@@ -22,7 +22,6 @@ package main
 //@   ensures#delivered len(ids) >= 1 && calls("fmt.Fprintf",1) == old(calls("fmt.Fprintf",1)) + len(ids) && lasterr("fmt.Fprintf",1) == nil   [C15]
 
 //@ func main()
-//@   nosafety
 //@   call os.OpenFile#1 requires arg0 == outFlag && arg1 == 193 && arg2 == 384                                      [C15]
 //@   ensures#closed calls("os.OpenFile",1) == old(calls("os.OpenFile",1)) + 1 ==> calls("$2:Close",1) == old(calls("$2:Close",1)) + 1 && lasterr("$2:Close",1) == nil   [C15]
 //@   ensures#ran !versionFlag ==> calls("generate",1) + calls("convert",1) == old(calls("generate",1)) + old(calls("convert",1)) + 1   [C15]
